@@ -154,8 +154,9 @@ def validate(pid, cases, results, verd, ev, tag, sig_extra=None, chunk=400):
     return nvalid, ncompile_fail, kinds
 
 
-def run_sem_check(pid, tier, families, rule, assumptions, extra_cases=None, want_eval=False, required_kinds=()):
-    """families: list of (name, feats, size, nprog_quick, nprog_thorough, nruns)"""
+def run_sem_check(pid, tier, families, rule, assumptions, extra_cases=None, want_eval=False, required_kinds=(), extra_parts=()):
+    """families: list of (name, feats, size, nprog_quick, nprog_thorough, nruns); extra_parts: callables (tier, ev, verd)
+    that decide a further part of the property with the same Evidence / Verdicts objects"""
     ev = vlib.Evidence(pid, tier)
     verd = vlib.Verdicts(pid)
     vlib.build_harness(["sem"])
@@ -213,6 +214,8 @@ def run_sem_check(pid, tier, families, rule, assumptions, extra_cases=None, want
     ev.rule = rule
     ev.assumptions = assumptions
     ev.impl_actions.update(k.split(":")[0] for k in allkinds)
+    for part in extra_parts:
+        part(tier, ev, verd)
     rc = verd.finish()
     ev.write(len(verd.violations))
     return rc
